@@ -170,6 +170,24 @@ static bool mul_operand_safe(const Basic &a)
     return is_a_Number(a) || atom_base(a);
 }
 
+// the numeric-exponent fragment on which the Mul theorems of Props/C04 are proved (`AC.mulFragSyntactic`);
+// used for the statistics only
+static bool mul_frag_syntactic(const Basic &a)
+{
+    auto fac = [](const Basic &b, const Basic &e) { return atom_base(b) && is_a_Number(e); };
+    if (is_a<Mul>(a)) {
+        for (auto &p : down_cast<const Mul &>(a).get_dict())
+            if (!fac(*p.first, *p.second))
+                return false;
+        return true;
+    }
+    if (is_a<Pow>(a))
+        return fac(*down_cast<const Pow &>(a).get_base(), *down_cast<const Pow &>(a).get_exp());
+    if (is_a_Number(a))
+        return !down_cast<const Number &>(a).is_zero();
+    return atom_base(a);
+}
+
 // descriptive tags for the statistics / the oracle text: *why* an operand is outside the safe class
 struct Classes {
     bool rad_neg = false;     // numeric radical with a negative base            (-2)**(1/3)
@@ -438,6 +456,17 @@ std::string hx_run(const std::string &line, std::string &oracle)
     stat("n=" + std::to_string(ops.size()));
     stat("variants", o.variants);
     stat("class:" + c.str());
+    if (k == K_ADD && !unsafe)
+        stat("theorem-fragment:add");
+    if (k == K_MUL) {
+        bool in = true;
+        for (auto &o2 : ops)
+            in = in && mul_frag_syntactic(*o2.e);
+        if (in)
+            stat("theorem-fragment:mul");
+        else if (!unsafe)
+            stat("oracle-only-safe:mul");
+    }
     if (!o.all_same) {
         stat(std::string("differ:") + (unsafe ? "known-class" : "NEW"));
         oracle = std::string("FAIL:order:") + kind_name(k) + ":" + (unsafe ? "known-class " : "unexpected-class ")
